@@ -46,6 +46,18 @@ def catalog() -> dict:
         cons=[Atom('{0} != "y"', (Sym("<item>"),), cmp=True)],
         reps=[("<start>", "<item>", lambda kids: int(_text(kids[0])))],
     )
+    c["computed_rep_group"] = dict(
+        ref=RefGrammar({"<start>": Seq((NT("<n>"), Rep(Seq((NT("<a>"), NT("<b>"))), 0, None, expr="int(<n>)"))),
+                        "<n>": Alt((Lit("1"), Lit("2"), Lit("3"))), "<a>": Alt((Lit("a"), Lit("A"))), "<b>": Lit("b")}),
+        cons=[Atom('str({0}) != "A"', (Sym("<a>"),), cmp=True)],
+        reps=[("<start>", "<a>", lambda kids: int(_text(kids[0]))), ("<start>", "<b>", lambda kids: int(_text(kids[0])))],
+    )
+    c["rep_and_tail"] = dict(
+        ref=RefGrammar({"<start>": Seq((NT("<n>"), Rep(NT("<item>"), 0, None, expr="int(<n>)"), NT("<tail>"))),
+                        "<n>": Alt((Lit("1"), Lit("2"), Lit("3"))), "<item>": Lit("i"), "<tail>": Alt((Lit("y"), Lit("z")))}),
+        cons=[Atom('str({0}) == "y"', (Sym("<tail>"),), cmp=True)],
+        reps=[("<start>", "<item>", lambda kids: int(_text(kids[0])))],
+    )
     c["equality"] = dict(
         ref=RefGrammar({"<start>": Seq((NT("<l>"), Lit("="), NT("<r>"))), "<l>": Plus(NT("<d>")), "<r>": Plus(NT("<d>")), "<d>": Alt((Lit("1"), Lit("2")))}),
         cons=[Atom('{0} == {1}', (Sym("<l>"), Sym("<r>")), cmp=True), Atom('len(str({0})) < 3', (Sym("<l>"),), cmp=True)],
